@@ -12,6 +12,7 @@ import (
 	"strings"
 	"sync"
 	"sync/atomic"
+	"time"
 
 	"github.com/apache/thrift/lib/go/thrift"
 
@@ -63,7 +64,9 @@ type request struct {
 	lenient    bool   // 0 or 1 replies are both acceptable
 	respLimit  int    // HTTP: value of the x-frugal-payload-limit header (0: none)
 	httpStatus int    // HTTP: status of the response
+	opidForm   string // "" or "non-canonical" / "empty"
 	hdrShape   string // "plain", or what is special about the header block (empty-valued pair last, ...)
+	rewritten  bool   // a reply arrived whose op id is this request's op id in another spelling
 	foreign    bool   // HTTP: the response frame carried another request's op id
 	taints     bool   // leaves a stream connection in an undefined state
 	sentinel   bool
@@ -90,8 +93,9 @@ func (r *request) kindName() string {
 
 // plan is what the recording handler does for one token.
 type plan struct {
-	err error
-	ret interface{}
+	err   error
+	ret   interface{}
+	delay time.Duration // the handler takes this long (builds a backlog on a NATS server)
 }
 
 var (
@@ -111,6 +115,9 @@ func behave(c *e2e.Call) *e2e.Outcome {
 		return nil
 	}
 	p := v.(*plan)
+	if p.delay > 0 {
+		time.Sleep(p.delay)
+	}
 	if p.err == nil && p.ret == nil {
 		return nil
 	}
@@ -248,7 +255,29 @@ func newRequest(rng *rand.Rand, proto string, kind int, o genOpts) *request {
 
 func newRequest1(rng *rand.Rand, proto string, kind int, o genOpts) *request {
 	r := &request{kind: kind}
-	r.opid = strconv.FormatUint(atomic.AddUint64(&opidSeq, 1), 10)
+	n := atomic.AddUint64(&opidSeq, 1)
+	r.opid = strconv.FormatUint(n, 10)
+	if rng.Intn(6) == 0 {
+		// op ids are header VALUES: any byte string is a decodable header and
+		// the reply has to carry the same string, canonical decimal or not
+		switch rng.Intn(7) {
+		case 0:
+			r.opid = "00" + r.opid
+		case 1:
+			r.opid = "+" + r.opid
+		case 2:
+			r.opid = fmt.Sprintf("9%020d", n) // above 2^64
+		case 3:
+			r.opid = "req-" + r.opid
+		case 4:
+			r.opid = " " + r.opid
+		case 5:
+			r.opid = fmt.Sprintf("0x%x-é", n)
+		default:
+			r.opid = "-" + r.opid
+		}
+		r.opidForm = "non-canonical"
+	}
 	r.cid = fmt.Sprintf("cid-%08x%08x", rng.Uint32(), rng.Uint32())
 	r.token = fmt.Sprintf("tk%dz", atomic.AddUint64(&tokSeq, 1))
 	pl := &plan{}
